@@ -373,7 +373,7 @@ NameE(v) == [k |-> "name", v |-> v]
 Both(a, b, S) == a \in S /\ b \in S
 RECURSIVE Ty(_, _)
 Ty(e, T) ==
-    CASE e.k = "int" -> IF SmallIntLit(e) THEN "L" ELSE "O"
+    CASE e.k = "int" -> IF SmallIntLit(e) THEN "L" ELSE "I"            \* IntNode: C long inside 32 bits, else Python int object
       [] e.k = "flt" -> "D"
       [] e.k = "str" -> "S"
       [] e.k = "bool" -> "B"
@@ -383,16 +383,18 @@ Ty(e, T) ==
                 b == Ty(e.r, T)
             IN CASE e.op \in {"+", "-", "*", "//", "%"} ->
                         IF Both(a, b, {"L", "D"}) THEN (IF a = "D" \/ b = "D" THEN "D" ELSE "L")
-                        ELSE IF Both(a, b, {"L", "I"}) THEN "I"                      \* a Python int object is involved: object arithmetic, int result
+                        ELSE IF Both(a, b, {"L", "I"}) THEN "I"                      \* result_type_of_builtin_operation: int object op int
+                        ELSE IF Both(a, b, {"L", "D", "I"}) THEN "D"                 \* int object op float: a Python operation coerced to C double
                         ELSE IF e.op = "+" /\ a = "S" /\ b = "S" THEN "S"
                         ELSE IF e.op = "*" /\ a = "S" /\ b = "L" THEN "S"
                         ELSE "O"
-                 [] e.op = "/" -> IF Both(a, b, {"L", "D"}) THEN "D" ELSE "O"
+                 [] e.op = "/" -> IF Both(a, b, {"L", "D", "I"}) THEN "D" ELSE "O"
                  [] e.op = "**" ->
                         IF a = "L" /\ b = "L" THEN (IF NonNegIntLit(e.r) THEN "L" ELSE "D")
                         ELSE IF a = "L" /\ b = "D" THEN "X"
                         ELSE IF a = "D" /\ b = "L" THEN "D"
                         ELSE IF a = "D" /\ b = "D" THEN (IF IntegralFltLit(e.r) THEN "D" ELSE "X")
+                        ELSE IF a = "I" /\ b \in {"I", "L"} THEN "I"               \* PowNode: int object ** int is typed `int object`
                         ELSE "O"
                  [] OTHER -> IF a = "L" /\ b = "L" THEN "L" ELSE IF Both(a, b, {"L", "I"}) THEN "I" ELSE "O"           \* shifts, bitwise
       [] e.k \in {"neg", "abs"} -> (LET a == Ty(e.e, T) IN IF a \in {"L", "D", "I"} THEN a ELSE "O")
@@ -401,7 +403,9 @@ Ty(e, T) ==
       [] e.k \in {"cond", "or", "and", "mm"} ->
             LET a == Ty(e.a, T)
                 b == Ty(e.b, T)
-            IN IF a = b THEN a ELSE IF Both(a, b, {"L", "D"}) THEN "D" ELSE "O"
+            IN IF a = b THEN a ELSE IF Both(a, b, {"L", "D"}) THEN "D"
+               ELSE IF Both(a, b, {"L", "I"}) THEN "I"          \* independent_spanning_type: PyInt + C int => PyInt
+               ELSE "O"
       [] e.k = "cmp" -> IF Both(Ty(e.l, T), Ty(e.r, T), {"L", "D", "B", "U"}) \/ Both(Ty(e.l, T), Ty(e.r, T), {"U", "S"}) THEN "B" ELSE "O"
       [] e.k = "in" -> IF Ty(e.l, T) \in {"L", "U"} THEN "B" ELSE "O"
       [] e.k = "idx" -> IF Ty(e.s, T) = "S" /\ Ty(e.i, T) = "L" THEN "U" ELSE "O"
@@ -486,6 +490,8 @@ BinHazards(e, lv, rv, res, T, sc) ==
               [] OTHER -> {}
        ELSE IF Both(a, b, {"L", "D"}) THEN
             (IF e.op = "**" /\ res.t = "exc" THEN {Hz("c_double_pow", cd, "")} ELSE {})
+       ELSE IF e.op = "**" /\ t = "I" /\ res.t = "float" THEN
+            {Hz("pyint_pow_float", "int_object_pow_typed_int", "")}        \* a float travels under the static type `int object`
        ELSE {}
 CmpHazards(e, lv, rv, T, sc) ==
     LET a == Ty(e.l, T)
@@ -710,13 +716,16 @@ SeqSet(s) == {s[i] : i \in 1..Len(s)}
 (* the types of the right-hand sides assigned to a local (MarkParallelAssignments + FlowControl) *)
 \* at inference time a comparison has no C type yet (PrimaryCmpNode.infer_type answers py_object);
 \* abs() is typed by the C overload that fits the exact C type, which the type classes do not carry: "W" = not decided
-RECURSIVE HasAbs(_)
-HasAbs(e) == CASE e.k = "abs" -> TRUE
-               [] e.k \in {"bin", "cmp"} -> HasAbs(e.l) \/ HasAbs(e.r)
-               [] e.k \in {"neg", "inv", "len"} -> HasAbs(e.e)
-               [] e.k \in {"cond", "or", "and", "mm"} -> HasAbs(e.a) \/ HasAbs(e.b)
+\* likewise `int object ** n` is only typed (as int object) by analyse_types, not by infer_type
+RECURSIVE HasAbs(_, _)
+HasAbs(e, TT) ==
+             CASE e.k = "abs" -> TRUE
+               [] e.k = "bin" -> (e.op = "**" /\ Ty(e.l, TT) = "I") \/ HasAbs(e.l, TT) \/ HasAbs(e.r, TT)
+               [] e.k = "cmp" -> HasAbs(e.l, TT) \/ HasAbs(e.r, TT)
+               [] e.k \in {"neg", "inv", "len"} -> HasAbs(e.e, TT)
+               [] e.k \in {"cond", "or", "and", "mm"} -> HasAbs(e.a, TT) \/ HasAbs(e.b, TT)
                [] OTHER -> FALSE
-TyInf(e, TT) == IF e.k \in {"cmp", "in"} THEN "O" ELSE IF HasAbs(e) THEN "W" ELSE Ty(e, TT)
+TyInf(e, TT) == IF e.k \in {"cmp", "in"} THEN "O" ELSE IF HasAbs(e, TT) THEN "W" ELSE Ty(e, TT)
 RECURSIVE FloatFlavoured(_, _)
 FloatFlavoured(e, TT) ==
     CASE e.k = "bin" -> e.op = "/" \/ Ty(e.l, TT) = "D" \/ Ty(e.r, TT) = "D" \/ FloatFlavoured(e.l, TT) \/ FloatFlavoured(e.r, TT)
